@@ -2,9 +2,11 @@ import Oas3Model.Driver.Util
 import Oas3Model.Driver.Naming
 import Oas3Model.Driver.Sse
 import Oas3Model.Driver.Resp
+import Oas3Model.Driver.Path
+import Oas3Model.Driver.Client
 open Lean Oas3.Driver
 
-def allOps : List (String × Handler) := Oas3.Driver.Naming.ops ++ Oas3.Driver.Sse.ops ++ Oas3.Driver.Resp.ops
+def allOps : List (String × Handler) := Oas3.Driver.Naming.ops ++ Oas3.Driver.Sse.ops ++ Oas3.Driver.Resp.ops ++ Oas3.Driver.Path.ops ++ Oas3.Driver.Client.ops
 
 def handleLine (line : String) : String :=
   match Json.parse line with
